@@ -83,4 +83,19 @@ def templates(tier="quick"):
     v = Variant("v0", [Stmt("dd", ex=["dd.in"], copy=True), Stmt("x", ex=["s"]), Stmt("y", ex=["t"]),
                        Stmt("out", ex=["in"], oo=["dd"], dyndep="dd"), Stmt("top", ex=["out", "x", "y"])])
     add("finish_fails", v, [], tags=["dyndep"], files={"dd.in": "ninja_dyndep_version = 1\nbuild out: dyndep |\n  garbage\n"}, interrupts=False)
+    # the commands that bring the manifest up to date take tokens like any others (F53), and the build proper follows
+    def regen(name, ver):
+        return Variant(name, [Stmt("g1", ex=["u"]), Stmt("g2", ex=["u"]), Stmt("build.ninja", ex=["build.ninja.in"], im=["g1", "g2"], generator=True, copy=True),
+                              Stmt("a", ex=["s"], ver=ver), Stmt("b", ex=["t"]), Stmt("top", ex=["a", "b"])], defaults=["top"])
+    va, vb = regen("m0", 0), regen("m1", 1)
+    rops = [{"op": "write", "path": "build.ninja.in", "content": vb.manifest(), "label": "build.ninja.in:=m1"},
+            {"op": "edit", "path": "u", "label": "edit u"}] + _ops(["g1"], pools, interrupts=False)
+    first = next(i for i, o in enumerate(rops) if o["op"] == "ninja")
+    T.append(scenario("jobserver/manifest_regen/built", "jobserver", [va, vb], files={"build.ninja.in": va.manifest()}, ops=rops, init=[first], depth=3,
+                      tags=["jobserver", "manifest-regen", "generator", "built", "no-conformance"]))
+    # dyndep information loaded in the middle of the build names the output of a pooled statement (the F20 shape) under tokens
+    from family_cycles import dyndep_text
+    v = Variant("v0", [Stmt("dd", ex=["dd.in"], copy=True), Stmt("x", ex=["s"], pool="pp"), Stmt("w", ex=["t"], pool="pp"),
+                       Stmt("out", ex=["in"], oo=["dd"], dyndep="dd", extra_reads=["x"]), Stmt("top", ex=["out", "w"])], pools={"pp": 1})
+    add("dyndep_pool", v, ["x"], tags=["dyndep", "pool"], files={"dd.in": dyndep_text([("out", [], ["x"], False)])}, interrupts=False)
     return T
